@@ -863,6 +863,13 @@ func compareByASNumber(path1, path2 *Path) *Path {
 	return nil
 }
 
+// isInternalPath reports whether the path is treated as IBGP learned by the
+// decision process: received from an IBGP peer or, as in compareByASNumber,
+// from a confederation member.
+func isInternalPath(path *Path) bool {
+	return path.GetSource().Confederation || path.IsIBGP()
+}
+
 func compareByRouterID(path1, path2 *Path) (*Path, error) {
 	//	Select the route received from the peer with the lowest BGP router ID.
 	//
@@ -878,11 +885,11 @@ func compareByRouterID(path1, path2 *Path) (*Path, error) {
 
 	// If both paths are from eBGP peers, then according to RFC we need
 	// not tie break using router id.
-	if !SelectionOptions.ExternalCompareRouterId && !path1.IsIBGP() && !path2.IsIBGP() {
+	if !SelectionOptions.ExternalCompareRouterId && !isInternalPath(path1) && !isInternalPath(path2) {
 		return nil, nil
 	}
 
-	if !SelectionOptions.ExternalCompareRouterId && path1.IsIBGP() != path2.IsIBGP() {
+	if !SelectionOptions.ExternalCompareRouterId && isInternalPath(path1) != isInternalPath(path2) {
 		return nil, fmt.Errorf("this method does not support comparing ebgp with ibgp path")
 	}
 
@@ -924,7 +931,7 @@ func compareByNeighborAddress(path1, path2 *Path) *Path {
 }
 
 func compareByAge(path1, path2 *Path) *Path {
-	if !path1.IsIBGP() && !path2.IsIBGP() && !SelectionOptions.ExternalCompareRouterId {
+	if !isInternalPath(path1) && !isInternalPath(path2) && !SelectionOptions.ExternalCompareRouterId {
 		age1 := path1.GetTimestamp().UnixNano()
 		age2 := path2.GetTimestamp().UnixNano()
 		if age1 == age2 {
